@@ -79,3 +79,11 @@ Print Assumptions C04_diagonal_ops_even.
 
 Example C04_single_site_flip_is_odd : leg_parity ([false], [true]) = true.
 Proof. reflexivity. Qed.
+
+(* loops never leave a zero-weight operator behind *)
+From QmcV Require Import Proofs.LegalityProofs.
+Theorem C04_loop_never_stores_nonpositive : forall (H : ham) fuel sl st,
+  nonneg_ham H -> all_positive H sl = true ->
+  mass (bad H) (denote (loop_update fuel H sl st)) == 0.
+Proof. exact loop_update_positive. Qed.
+Print Assumptions C04_loop_never_stores_nonpositive.
